@@ -1173,7 +1173,9 @@ class PSBTIn:
                 or script_pubkey.is_p2wpkh()
             ):
                 raise ValueError("Witness UTXO provided for non-witness input")
-            if script_pubkey.is_p2sh() and self.redeem_script:
+            if self.redeem_script:
+                if not script_pubkey.is_p2sh():
+                    raise ValueError("RedeemScript defined for non-p2sh ScriptPubKey")
                 if not self.redeem_script.is_witness_script():
                     raise ValueError("Witness UTXO provided for non-witness input")
                 if self.redeem_script.hash160() != script_pubkey.commands[1]:
